@@ -154,7 +154,7 @@ def make_jobs(ctx, focus: str):
             mm = r.choice(["min", "max"])
             dim = r.choice([1, 2, 3, 5]) if not ctx.quick else r.choice([2, 3])
             t = search.cont_task(dim=dim, lo=lo, hi=hi, obj=r.choice(["sphere", "shifted", "linear", "rastrigin"]), minmax=mm, seed=r.randint(0, 10**6))
-            jobs.append({"opt": nm, "cfg": {"max_cycles": r.choice([2, 3]), "fitness_error": None}, "task": t, "record": True})
+            jobs.append({"opt": nm, "cfg": {"max_cycles": r.choice([2, 3]), "fitness_error": None}, "task": t, "record": True, "trace_init": True})
         # multi-objective with non-normalised weights, both directions
         if focus in ("cost", "space") or not ctx.quick:
             t = {"vars": [("multiobj", ([-4.0, -4.0], [4.0, 4.0]))], "obj": "multi2", "minmax": r.choice(["min", "max"]),
@@ -223,6 +223,10 @@ def decide(ctx, obs_list, what: set[str]):
                         phi = 1 / (cost + 1) if cost >= 0 else 1 + abs(cost)
                         if fit != phi and not (math.isnan(phi) and math.isnan(fit)):
                             ctx.violation(f"fitness:{j['opt']}", f"{j['opt']}: fitness {fit!r} but the documented function of cost {cost!r} is {phi!r}", {"kind": "job", "job": j, "generation": g})
+        if o["ok"] and "space" in what and o.get("untraced_agents"):
+            g_, pos_, cost_ = o["untraced_agents"][0]
+            ctx.violation(f"untraced-agent:{j['opt']}", f"{j['opt']}: generation {g_} reports an agent (position {pos_!r}, cost {cost_!r}) that is not field-equal to any product of "
+                          f"_init_agent in this run (built or edited outside the construction path the proofs rely on)", {"kind": "job", "job": j, "generation": g_})
         if "calls" in what:
             for line in o.get("calls", []):
                 stats["calls"] += 1
